@@ -84,9 +84,11 @@ pub enum Ep {
     TokAddMinter,
     TokRemoveMinter,
     TokOwnerMint,
+    /// owner minting through the minter entry point: mint_from(minter = current owner, ..)
+    TokOwnerMintFrom,
 }
 
-pub const EPS: [Ep; 27] = [
+pub const EPS: [Ep; 28] = [
     Ep::GwTransferOwnership,
     Ep::GwTransferOperatorship,
     Ep::GwUpgrade,
@@ -114,6 +116,7 @@ pub const EPS: [Ep; 27] = [
     Ep::TokAddMinter,
     Ep::TokRemoveMinter,
     Ep::TokOwnerMint,
+    Ep::TokOwnerMintFrom,
 ];
 
 impl Ep {
@@ -126,7 +129,7 @@ impl Ep {
             GasCollectFees | GasRefund => Role::GasCollector,
             OpsTransferOwnership | OpsUpgrade | OpsMigrate | OpsAddOperator | OpsRemoveOperator => Role::OpsOwner,
             ItsTransferOwnership | ItsUpgrade | ItsMigrate | ItsSetTrustedChain | ItsRemoveTrustedChain => Role::ItsOwner,
-            TokTransferOwnership | TokSetAdmin | TokUpgrade | TokMigrate | TokAddMinter | TokRemoveMinter | TokOwnerMint => Role::TokenOwner,
+            TokTransferOwnership | TokSetAdmin | TokUpgrade | TokMigrate | TokAddMinter | TokRemoveMinter | TokOwnerMint | TokOwnerMintFrom => Role::TokenOwner,
         }
     }
     /// can the call be made with a second, different argument list?
@@ -232,7 +235,7 @@ fn prepare(s: &Sys, ep: Ep) {
             s.token.add_minter(&s.pool[EXTRA_A]);
             s.token.add_minter(&s.pool[EXTRA_B]);
         }
-        Ep::TokOwnerMint => {
+        Ep::TokOwnerMint | Ep::TokOwnerMintFrom => {
             // the owner's own minting right is tied to the minter set: make sure the current
             // owner is a minter so that only the authorisation question remains
             let o = s.token.owner();
@@ -287,6 +290,7 @@ fn call(s: &Sys, ep: Ep, alt: bool) -> bool {
         Ep::TokAddMinter => ok!(s.token.try_add_minter(who)),
         Ep::TokRemoveMinter => ok!(s.token.try_remove_minter(who)),
         Ep::TokOwnerMint => ok!(s.token.try_mint(who, &amount)),
+        Ep::TokOwnerMintFrom => ok!(s.token.try_mint_from(&s.token.owner(), who, &amount)),
     }
 }
 
@@ -310,7 +314,7 @@ fn effect_visible(s: &Sys, ep: Ep) -> Result<(), String> {
         Ep::ItsRemoveTrustedChain => !s.its.is_trusted_chain(&sstr(env, "chain-a")),
         Ep::TokAddMinter => s.token.is_minter(who),
         Ep::TokRemoveMinter => !s.token.is_minter(who),
-        Ep::TokOwnerMint => s.token.balance(who) == 1,
+        Ep::TokOwnerMint | Ep::TokOwnerMintFrom => s.token.balance(who) == 1,
         _ => true,
     };
     if good {
@@ -349,10 +353,10 @@ impl Property for C06 {
         "C06"
     }
     fn rule(&self) -> &'static str {
-        "every case = (role-transfer history over the 6 transferable roles of the 5 role-bearing contracts, one of 27 administrative entry points, one of 7 principal classes: current holder, former holder, holder of another role, beneficiary named in the arguments, stranger, nobody, holder-authorised-other-arguments). The full 27x7 matrix with an empty history is enumerated in every run (fixed cases); proptest adds histories of 1-5 transfers (incl. to self, to the other role's holder, and back). Engine: the authorisation trees the call needs are recorded in a twin world with all auths mocked, then replayed in a fresh identical world in which exactly one principal signs the tree recorded for the role holder. Oracle: role model: success iff that principal is the current holder (and signed these exact arguments); refusals must leave the ledger snapshot identical; after an accepted transfer the role query names exactly the successor. non-trivial = principal is not simply the initial holder (principal class != Holder, or history non-empty); distinct by Debug hash"
+        "every case = (role-transfer history over the 6 transferable roles of the 5 role-bearing contracts, one of 28 administrative entry points, one of 7 principal classes: current holder, former holder, holder of another role, beneficiary named in the arguments, stranger, nobody, holder-authorised-other-arguments). The full 28x7 matrix with an empty history is enumerated in every run (fixed cases); proptest adds histories of 1-5 transfers (incl. to self, to the other role's holder, and back). Engine: the authorisation trees the call needs are recorded in a twin world with all auths mocked, then replayed in a fresh identical world in which exactly one principal signs the tree recorded for the role holder. Oracle: role model: success iff that principal is the current holder (and signed these exact arguments); refusals must leave the ledger snapshot identical; after an accepted transfer the role query names exactly the successor. non-trivial = principal is not simply the initial holder (principal class != Holder, or history non-empty); distinct by Debug hash"
     }
     fn fixed_is_exhaustive(&self) -> Option<&'static str> {
-        Some("entry-point x principal matrix (27 x 7) with empty role history enumerated completely; histories sampled")
+        Some("entry-point x principal matrix (28 x 7) with empty role history enumerated completely; histories sampled")
     }
     fn cases(&self, tier: Tier) -> u64 {
         tier.pick(4000, 60000)
